@@ -25,6 +25,10 @@ REG = {
    text="coq/Properties/C14.v: the sender's decision function never selects LZ4 (the helper only recognises the zstd magic); for every decision (size, extension, content sample, override) the SFTP/helper pipeline delivers exactly the original bytes, incl. empty, incompressible and magic-prefixed inputs -- relative to the zstd laws (theorem named _partial); raw helper payloads without the magic are written as they are; sparse transfers: for every extent layout whose holes read as zeros, receive_sparse(len, detect ext, pack f (detect ext)) = f (induction over the layout), short streams rejected. Tie: real `sy-remote receive-file`/`receive-sparse-file` over stdin with payload families (over pre-existing non-zero destination content), both codecs round-tripped, should_compress_smart vs the model's table, detect_data_regions vs the model fed with the kernel's extent map read by SEEK_DATA/SEEK_HOLE.",
    note="Partial: decompress(compress x) = x for zstd/lz4 is a hypothesis (external C/Rust libraries; exercised on the payload corpus only); the SSH transport itself cannot run (no sshd) -- only the helper binary and the sender's pure logic are covered.",
    technique="Rocq proof (decision-table case analysis; layout induction for sparse reconstruction) + helper-binary differential correspondence"),
+ "C15": dict(
+   text="coq/Properties/C15.v over Model/Verify.v (SyncEngine::verify + main.rs exit mapping): for content-comparing modes and trees without directory/file conflicts, exit 0 iff both trees hold the same regular files with identical contents; the mismatched / source-only / destination-only lists are exactly the true sets (for every size bound); exit 2 iff some file could not be read; the full statement is refuted for --mode fast (C15_refuted_fast_mode = C15-KF1) and for a source directory vs a destination file (C15_refuted_type_conflict = C15-KF2). Tie: pairs of trees x all modes through `sy --verify-only --json` (exit status, lists, matched count) vs Verify.verify; true sets from snapshots as the oracle; both trees snapshotted before/after.",
+   note="Read-only is validated by snapshots only (the model is a pure function of the two listings); symbolic links are outside the model; hash collision-freedom assumed.",
+   technique="Rocq proof (filter characterisations, exit-code equivalence, refutation witnesses) + binary-level differential correspondence"),
  "C16": dict(
    text="Theorems in coq/Properties/C16.v: the glob matcher equals the declarative glob relation; basename/full-path/directory-subtree rule semantics; first-match decision; CLI rule order; and engine_select (the fold with excluded-directory pruning and size bounds) selects exactly {own first match includes, no excluded ancestor, size in bounds} for every rule list, bound and parent-first listing. Tied to the code by comparing FilterEngine::should_include with the extracted model over rule lists x a path universe and by running the real binary on generated trees/flags and comparing the transferred set with the proved selection; the listing hypothesis is evaluated on every real scan.",
    note="glob crate re-implemented for the grammar literal|?|* (validated by comparison, `**` and [..] outside the model); scanner walk order is a checked hypothesis. All theorems closed under the global context.",
